@@ -98,9 +98,76 @@ let () =
             (String.concat "." (List.map (fun x -> string_of_int (int_of_nat x)) (obs_preds nn succs s kk))))
         done;
         Buffer.contents b in
+      (* the store operation of a token (those that may occur in a concurrent batch) *)
+      let op_of_tok tok =
+        let arg = String.sub tok 1 (String.length tok - 1) in
+        match tok.[0] with
+        | 'P' -> OPush (nat_of_int (ios arg))
+        | 'Q' ->
+          (match String.split_on_char ':' arg with
+           | [k; x; a] ->
+             let x = if x = "6" then "0" else x in
+             OPushX { d_node = nat_of_int (ios k); d_extra = nat_of_int (ios x);
+                      d_refann = (if a = "-" then None else Some (RTag (nat_of_int (ios a)))) }
+           | _ -> failwith "push op")
+        | 'T' ->
+          (match String.split_on_char ':' arg with
+           | [k; x; a; r] ->
+             let x = if x = "6" then "0" else x in
+             let d = { d_node = nat_of_int (ios k); d_extra = nat_of_int (ios x);
+                       d_refann = (if a = "-" then None else Some (RTag (nat_of_int (ios a)))) } in
+             let rf = if r = "d" then RDig d.d_node
+                      else if r = "B" then RDig (nat_of_int (n + 7))
+                      else if r.[0] = 'D' then RDig (nat_of_int (ios (String.sub r 1 (String.length r - 1))))
+                      else RTag (nat_of_int (ios r)) in
+             OTag (d, rf)
+           | _ -> failwith "tag op")
+        | 'U' -> OUntag (RTag (nat_of_int (ios arg)))
+        | 'V' -> OUntag (RDig (nat_of_int (ios arg)))
+        | 'D' -> ODelete (nat_of_int (ios arg))
+        | 'G' -> OGC
+        | 'S' -> OSave
+        | _ -> failwith "batch op" in
+      (* all permutations of a list *)
+      let rec perms l = match l with
+        | [] -> [[]]
+        | _ -> List.concat_map (fun x -> List.map (fun p -> x :: p) (perms (List.filter (fun y -> y <> x) l))) l in
       List.iter (fun tok ->
         let arg = String.sub tok 1 (String.length tok - 1) in
         match tok.[0] with
+        | '&' ->
+          (* concurrent batch: &op|op..=res|res..@<live observation>@<observation of the reopened store>.  Accepted if some sequential
+             order of the operations, run by the model from the current state, gives these
+             results and this live state; the model continues from that state. *)
+          let i = String.index arg '=' in
+          let ops_s = String.sub arg 0 i in
+          let rest = String.sub arg (i + 1) (String.length arg - i - 1) in
+          let j = String.index rest '@' in
+          let res_s = String.sub rest 0 j and obs2 = String.sub rest (j + 1) (String.length rest - j - 1) in
+          let j2 = String.index obs2 '@' in
+          let obs_s = String.sub obs2 0 j2 and reobs_s = String.sub obs2 (j2 + 1) (String.length obs2 - j2 - 1) in
+          if res_s = "hang" then Buffer.add_string buf " &HANG" else begin
+            let bops = Array.of_list (String.split_on_char '|' ops_s)
+            and bres = Array.of_list (String.split_on_char '|' res_s) in
+            let idx = List.init (Array.length bops) (fun i -> i) in
+            let accepted = ref false in
+            List.iter (fun perm ->
+              if not !accepted then begin
+                let s = ref !st and ok = ref true and sweeps = ref false in
+                List.iter (fun i ->
+                  if !ok then begin
+                    let (s', r) = step nn mf succs subj sk bad fix_f2 fix_a fix_f1 fix_hold fix_ref !cfg !s
+                                    (op_of_tok bops.(i), orders ()) in
+                    if show_result r <> bres.(i) then ok := false
+                    else begin s := s'; if bops.(i) = "G" then sweeps := true end
+                  end) perm;
+                if !ok && obs !s = obs_s && obs (reopen nn mf succs !s) = reobs_s then begin
+                  accepted := true; st := !s;
+                  if !sweeps then strays := List.filter (fun (_, k) -> not (gc_sweeps_stray k)) !strays
+                end
+              end) (perms idx);
+            Buffer.add_string buf (if !accepted then " &LIN" else " &NOLIN")
+          end
         | 'P' -> do_op (OPush (nat_of_int (ios arg)))
         | 'Q' ->
           (match String.split_on_char ':' arg with
@@ -143,7 +210,12 @@ let () =
           let o = obs !st and r = obs (reopen nn mf succs !st) in
           let xs = String.concat "," (List.map (fun tok ->
             tok ^ (if List.mem_assoc tok !strays then "=1" else "=0")) !all_strays) in
-          Buffer.add_string buf (Printf.sprintf " C[%s|%s|%s|%s|%s|v%d|x:%s]" o r r r r (if disk_valid !st then 1 else 0) xs)
+          let ents = List.sort compare (List.map (fun d ->
+            match d.d_refann with
+            | None -> Printf.sprintf "%d.*.-" (int_of_nat d.d_node)
+            | Some _ -> show_desc d) (!st).disk) in
+          Buffer.add_string buf (Printf.sprintf " C[%s|%s|%s|%s|%s|v%d|x:%s|i:%s]" o r r r r
+            (if disk_valid !st then 1 else 0) xs (String.concat "," ents))
         | _ -> failwith "op") ops;
       Buffer.contents buf in
       (* the history is evaluated under two unrelated streams of iteration orders: the
